@@ -280,6 +280,49 @@ func c15Workload(g *hx.Gen) string {
 			placed = true
 		}
 	}
+	// decoys (not listed, nothing is demanded of them): a copy whose identity is below the minimum, or an
+	// exact copy shorter than the minimum hit length; they exercise the identity and length tests of the
+	// aligner, which must not report them
+	if g.Chance(0.6) {
+		qseq := query
+		if self {
+			qseq = target
+		}
+		var rep, cp []byte
+		if g.Chance(0.5) {
+			R := g.Range(minLen*3/2, 500)
+			if R < minLen*3/2 {
+				R = minLen * 3 / 2
+			}
+			rep = g.Letters("acgt", R)
+			full := float64(R) * (1 - float64(minIDm)/1000)
+			cp = c15Mutate(g, rep, int(full*(1.3+1.2*g.Float64()))+2, 0)
+		} else {
+			R := minLen * g.Range(55, 97) / 100
+			rep = g.Letters("acgt", R)
+			cp = c15Mutate(g, rep, g.Intn(3), 0)
+		}
+		if g.Chance(0.5) {
+			cp = c15RevComp(cp)
+		}
+		for try := 0; try < 50; try++ {
+			a := g.Intn(len(target) - len(rep))
+			b := g.Intn(len(qseq) - len(cp))
+			uq := usedQ
+			if self {
+				uq = usedT
+			}
+			if !free(usedT, a, a+len(rep)) || !free(uq, b, b+len(cp)) {
+				continue
+			}
+			if self && a < b+len(cp)+50 && b < a+len(rep)+50 {
+				continue
+			}
+			copy(target[a:], rep)
+			copy(qseq[b:], cp)
+			break
+		}
+	}
 	ps := "-"
 	if len(plants) > 0 {
 		ss := make([]string, len(plants))
